@@ -34,3 +34,86 @@ Example C12_nonvacuous :
   snd (mon_run_all ExtZArith (fun _ _ => PStd) F dict_init w 0 4) =
   [[PosInf; PosInf]; [Fin 2; Fin 2]; [Fin (-1); Fin (-1)]; [Fin (-2); Fin (-2)]].
 Proof. cbv zeta. vm_compute. reflexivity. Qed.
+
+(* ------------------------------------------------------------------ *)
+(* dense time, online (models DenseOnlineMon.v / DenseOnlineForest.v)  *)
+(* ------------------------------------------------------------------ *)
+From RV Require Dense DenseSem DenseMerge DenseMergeCorrect DenseOnlineMergeCorrect DenseOnlineMon DenseOnlineMonCorrect DenseOnlineMonMore DenseIA
+  DenseOnlineForest DenseOnlineForestCorrect.
+
+(* EVERY forest of assertions (no fragment, any predicate kinds), every sequence of updates that does not raise: the
+   results recorded for assertion j, update after update (what get_value(name_j) returns after each update), are the
+   lists a stand-alone monitor of formula j returns for the same data sets.  rs: per update, the memo and the list of
+   the assertions' results; forest_get j = the j-th result. *)
+Theorem C12_dense_get_online :
+  forall (VS : Val) (AR : Arith VS) (pk : formula -> formula -> pkind) (F : list formula)
+         (envs : list (list Dense.dsig)) d rs (j : nat) (p : formula),
+    DenseOnlineForest.forest_run AR pk F (DenseOnlineForest.forest_init F) envs = Some (d, rs) ->
+    nth_error F j = Some p ->
+    exists dj, DenseOnlineMon.mon_run AR pk p (DenseOnlineMon.mon_init p) envs = Some (dj, map (DenseOnlineForest.forest_get j) rs).
+Proof. exact @DenseOnlineForestCorrect.forest_get_standalone. Qed.
+Print Assumptions C12_dense_get_online.
+
+(* the same for get_value(printed text of any sub-formula a of an assertion): results[node] of every reachable node *)
+Theorem C12_dense_get_sub_online :
+  forall (VS : Val) (AR : Arith VS) (pk : formula -> formula -> pkind) (F : list formula)
+         (envs : list (list Dense.dsig)) d rs (r a : formula),
+    DenseOnlineForest.forest_run AR pk F (DenseOnlineForest.forest_init F) envs = Some (d, rs) ->
+    In r F -> In a (DenseOnlineMonCorrect.subs r) ->
+    exists da os, DenseOnlineMon.mon_run AR pk a (DenseOnlineMon.mon_init a) envs = Some (da, os) /\
+                  map (DenseOnlineForest.forest_get_sub a) rs = map Some os.
+Proof. exact @DenseOnlineForestCorrect.forest_get_sub_standalone. Qed.
+Print Assumptions C12_dense_get_sub_online.
+
+(* and an update of the forest raises exactly when an update of the stand-alone monitor of some assertion raises *)
+Theorem C12_dense_raises :
+  forall (VS : Val) (AR : Arith VS) (pk : formula -> formula -> pkind) (F : list formula) (envs : list (list Dense.dsig)),
+    DenseOnlineForest.forest_run AR pk F (DenseOnlineForest.forest_init F) envs = None <->
+    exists p, In p F /\ DenseOnlineMon.mon_run AR pk p (DenseOnlineMon.mon_init p) envs = None.
+Proof. exact @DenseOnlineForestCorrect.forest_raises_iff. Qed.
+Print Assumptions C12_dense_raises.
+
+(* assertions of the proved fragment with a variable (the hypotheses of C05_monitor_general on every assertion): no
+   update raises, and what is recorded for assertion j has finite stamps and denotes rhoZ of formula j, at every tick
+   from 0 to the last stamp returned, which is never beyond the last sample of a variable of formula j *)
+Theorem C12_dense_get_online_correct :
+  forall (VS : Val) (AR : Arith VS) (pk : formula -> formula -> pkind),
+    (forall f g, pk f g = PStd) \/ DenseIA.DiffLaws AR -> (forall l r : V, neg (a2 AR Sub l r) = a2 AR Sub r l) ->
+    forall (F : list formula) (W : list Dense.dsig) (tend : Z) (envs : list (list Dense.dsig)),
+      (forall x, DenseOnlineMonCorrect.feedsI [] (map (fun env => nth x env []) envs) (nth x W [])) ->
+      (forall x, DenseMergeCorrect.dsorted (nth x W [])) ->
+      (forall x, nth x W [] <> [] -> Dense.start (nth x W []) = 0%Z) ->
+      (forall p, In p F -> DenseOnlineMonMore.cl p = DenseOnlineMonMore.COpen /\ DenseOnlineMonMore.safe AR pk W tend p) ->
+      exists d rs,
+        DenseOnlineForest.forest_run AR pk F (DenseOnlineForest.forest_init F) envs = Some (d, rs) /\ length rs = length envs /\
+        forall j p, nth_error F j = Some p ->
+          exists dj outs S,
+            DenseOnlineMon.mon_run_fin AR pk p (DenseOnlineMon.mon_init p) envs = Some (dj, outs) /\
+            map (DenseOnlineForest.forest_get j) rs = map DenseOnlineMon.lift outs /\
+            DenseOnlineMonCorrect.feedsI [] outs S /\ DenseMergeCorrect.dsorted S /\
+            DenseOnlineMergeCorrect.wsorted (concat outs) /\
+            (forall a v, In (a, v) (concat outs) -> (0 <= a <= DenseOnlineMergeCorrect.lastT (concat outs))%Z) /\
+            (forall t, concat outs <> [] -> (0 <= t <= DenseOnlineMergeCorrect.lastT (concat outs))%Z ->
+                       Dense.den_opt (concat outs) t = Some (DenseSem.rhoZ AR pk W tend p t)) /\
+            (forall x, In x (DenseOnlineMonCorrect.fvars p) ->
+                       (DenseOnlineMergeCorrect.lastT (concat outs) <= DenseOnlineMergeCorrect.lastT (nth x W []))%Z) /\
+            (DenseOnlineMonMore.pg p = true ->
+               exists x, In x (DenseOnlineMonCorrect.fvars p) /\
+                         DenseOnlineMergeCorrect.lastT (concat outs) = DenseOnlineMergeCorrect.lastT (nth x W [])).
+Proof. exact @DenseOnlineForestCorrect.forest_online_correct. Qed.
+Print Assumptions C12_dense_get_online_correct.
+
+Example C12_dense_nonvacuous :
+  (* sp = once[0,2](x0 >= 1);  out = (sp since sp) and not(sp): two updates; per update the results of (sp, out) *)
+  let q : @formula ExtZVal := OnceT 0 2 (Pred CGeq (Var 0) (Const (Fin 1))) in
+  let F := [q; And (Since q q) (Not q)] in
+  let envs := [[[(0%Z, Fin 3); (2%Z, Fin 0)]]; [[(5%Z, Fin (-1)); (6%Z, Fin 4)]]] in
+  (forall p, In p F -> DenseOnlineMonMore.cl p = DenseOnlineMonMore.COpen) /\
+  option_map (fun x => map snd (snd x)) (DenseOnlineForest.forest_run ExtZArith (fun _ _ => PStd) F (DenseOnlineForest.forest_init F) envs)
+    = Some [[[(DenseMerge.T 0%Z, Fin 2); (DenseMerge.T 2%Z, Fin 2)]; [(DenseMerge.T 0%Z, Fin (-2))]];
+            [[(DenseMerge.T 2%Z, Fin 2); (DenseMerge.T 4%Z, Fin (-1)); (DenseMerge.T 6%Z, Fin 3)]; [(DenseMerge.T 4%Z, Fin (-1))]]].
+Proof.
+  cbv zeta. split.
+  - intros p [<-|[<-|[]]]; vm_compute; reflexivity.
+  - vm_compute. reflexivity.
+Qed.
